@@ -23,10 +23,21 @@ TICK = 64.0
 REAL_DIR = report.get_template_dir()
 
 
-def mk(t):
+def mk(t, shared=None):
+    """A transaction as tally's parsers build it: 'tags' IS the list object of match_info['tags'] (parsers.py:
+    'tags': match_info.get('tags', [])); with `shared`, transactions of one merchant with equal tags share one
+    match_info (and so one list), as when a cached rule result is reused."""
+    tags = list(t['tags'])
+    mi = {'pattern': 'contains("' + t['m'][:8].upper().replace('"', '') + '")', 'source': 'user', 'tags': tags, 'tag_sources': {}}
+    if shared is not None:
+        mi = shared.setdefault((t['m'], tuple(t['tags'])), mi)
+    if t.get('mi') is False:
+        mi = None
     d = {'amount': t['a'] / TICK, 'merchant': t['m'], 'category': t['c'], 'subcategory': t['s'],
          'date': datetime.strptime(t['date'], '%Y-%m-%d'), 'source': t['src'], 'description': t['d'],
-         'tags': list(t['tags'])}
+         'tags': (mi['tags'] if mi else tags)}
+    if mi:
+        d['match_info'] = mi
     if t.get('raw') is not None:
         d['raw_description'] = t['raw']
     if t.get('extra'):
@@ -87,7 +98,8 @@ def capture(fn, *a, **kw):
 def run_case(case, work):
     res = {}
     try:
-        txns = [mk(t) for t in case['txns']]
+        shared = {} if case.get('alias') == 'shared' else None
+        txns = [mk(t, shared) for t in case['txns']]
         st = analyzer.analyze_transactions(txns)
         if case.get('views') is not None:
             # the glue of commands/run.py lines 146-160
